@@ -32,7 +32,18 @@ use std::{
 use tokio::sync::RwLock;
 
 #[cfg(feature = "files")]
-use {sos_backend::FileEventLog, sos_core::events::patch::FileDiff};
+use {
+    crate::ClientBaseStorage,
+    sos_backend::FileEventLog,
+    sos_core::{
+        events::{
+            patch::{FileDiff, Patch},
+            FileEvent,
+        },
+        ExternalFile,
+    },
+    sos_vfs as vfs,
+};
 
 // Must use a new type due to the orphan rule.
 #[doc(hidden)]
@@ -118,6 +129,60 @@ where
         <T as StorageEventLogs>::Error,
     > {
         self.0.folder_log(id).await
+    }
+}
+
+#[cfg(feature = "files")]
+impl<T> SyncImpl<T>
+where
+    T: ClientBaseStorage,
+{
+    /// Remove files this device holds for file events merged from
+    /// another device that deleted or moved them.
+    ///
+    /// A file that is still part of the canonical set of files
+    /// is never removed.
+    async fn remove_stale_files(
+        &self,
+        patch: &Patch<FileEvent>,
+        canonical: &IndexSet<ExternalFile>,
+    ) -> Result<()> {
+        let paths = self.0.paths();
+        for record in patch.iter() {
+            match record.decode_event::<FileEvent>().await? {
+                FileEvent::DeleteFile(owner, name) => {
+                    let file = ExternalFile::new(owner, name);
+                    let path = paths.into_file_path(&file);
+                    if !canonical.contains(&file)
+                        && vfs::try_exists(&path).await?
+                    {
+                        vfs::remove_file(&path).await?;
+                    }
+                }
+                FileEvent::MoveFile { name, from, dest } => {
+                    let source = ExternalFile::new(from, name);
+                    let target = ExternalFile::new(dest, name);
+                    let source_path = paths.into_file_path(&source);
+                    let target_path = paths.into_file_path(&target);
+                    if !canonical.contains(&source)
+                        && vfs::try_exists(&source_path).await?
+                    {
+                        if canonical.contains(&target)
+                            && !vfs::try_exists(&target_path).await?
+                        {
+                            if let Some(parent) = target_path.parent() {
+                                vfs::create_dir_all(parent).await?;
+                            }
+                            vfs::rename(&source_path, &target_path).await?;
+                        } else {
+                            vfs::remove_file(&source_path).await?;
+                        }
+                    }
+                }
+                _ => {}
+            }
+        }
+        Ok(())
     }
 }
 
@@ -404,6 +469,15 @@ where
         outcome.external_files = external_files;
 
         if let CheckedPatch::Success(_) = &checked_patch {
+            // Deletions and moves made on another device must be
+            // applied to the files this device already holds;
+            // downloads of new files are queued by the caller
+            let canonical = {
+                let reducer = FileReducer::new(&*event_log);
+                reducer.reduce(None).await?
+            };
+            self.remove_stale_files(&diff.patch, &canonical).await?;
+
             outcome.changes += diff.patch.len() as u64;
             outcome.tracked.files =
                 TrackedChanges::new_file_records(&diff.patch).await?;
